@@ -55,8 +55,12 @@ var c01PathsSlash = func() []string {
 		if p != "/" && strings.Count(p, "/") <= 2 {
 			out = append(out, p+"/")
 		}
+		if p != "/" && strings.Count(p, "/") == 1 {
+			// the same path with its leading slash missing / doubled, with and without a trailing slash
+			out = append(out, p[1:], p[1:]+"/", "/"+p, "/"+p+"/", "//"+p+"/")
+		}
 	}
-	return out
+	return append(out, "//", "")
 }()
 
 type c01Case struct {
